@@ -597,6 +597,12 @@ example : (map bodySem .sync prog2 0 vals2 ["x", "z"] .product .cont {}).results
        [("y", .int 12)], [("y", .int 22)], [("y", .int 32)]] := by rfl
 example : generateMapInputs vals2 ["x", "z"] .zip = .error (.valueError "zip") := by rfl
 example : generateMapInputs [("x", .int 3)] ["x"] .zip = .error (.typeError "map_over") := by rfl
+/-- fix 4b4565d: the inner graph `a(x) -> r, emit done` selects `r`; the mapping wrapper renames `r` to `done`. The exposed output `done` is
+DATA (the hidden inner signal of that name is not exposed): it is collected. Before the repair the signal-only names were looked for among
+ALL inner outputs and the renamed data output was dropped. -/
+def gHidden : GraphD := elabGraph [] { name := "g0", nodes := [{ name := "a", kind := .fn, params := [("x", .none)], dataOuts := ["r"], emits := ["done"], body := .tag "a" }], selected := some ["r"] }
+def ndHidden : NodeD := elabGraphNode { name := "m", kind := .graph, inner := 0, outRen := [("r", "done")], mapOver := ["x"] } gHidden
+example : ndHidden.outputs = ["done"] ∧ ndHidden.signalOuts = [] ∧ collectNames ndHidden = ["done"] := by decide
 /-- a limit without a slot: refused, nothing ran -/
 example : (mapLimited bodySem .sync prog1 0 vals1 ["x"] .zip .cont {} (some 0)).raised = some (.valueError "max_concurrency") := by rfl
 example : (mapLimited bodySem .sync prog1 0 vals1 ["x"] .zip .cont {} (some 2)).results.length = 3 := by rfl
